@@ -1313,6 +1313,11 @@ class H2Connection:
         if acknowledged_size < 0:
             raise ValueError("Cannot acknowledge negative data")
 
+        if self.state_machine.state == ConnectionState.CLOSED:
+            # A closed connection emits nothing but GOAWAY: there is no one
+            # left to hand flow control credit to.
+            return
+
         frames = []
 
         # Look the stream up first: an unknown stream ID must not credit the
